@@ -1327,7 +1327,9 @@ func c16ExecHistBody(cs *c16HistCase) (o *c16Outcome) {
 	last := len(cs.Ops) - 1
 	cur = len(cs.Ops)
 	c16Churn(cs.ChurnSeed+104729, cs.Workers)
-	c16GC(false)
+	if cs.ChurnSeed%3 == 0 {
+		c16GC(false)
+	}
 	noteChurn(last)
 	checkAll(last, "after the final churn and GC")
 	for _, r := range readers {
@@ -1556,7 +1558,7 @@ func c16GenHist(rng *rand.Rand, pool []c16FileSpec, maxOps int) *c16HistCase {
 			}
 		case x < 70:
 			cs.Ops = append(cs.Ops, c16Op{Tok: tok('c')})
-		case x < 92:
+		case x < 95:
 			cs.Ops = append(cs.Ops, c16Op{Tok: "x"})
 		default:
 			cs.Ops = append(cs.Ops, c16Op{Tok: "g", Free: rng.Intn(4) == 0})
@@ -1678,7 +1680,7 @@ func c16ExecPages(cs *c16PagesCase) (o *c16Outcome) {
 		}
 		pending = append(pending, hp)
 		c16Churn(cs.ChurnSeed+int64(pageNo)*31, map[bool]int{true: cs.Workers, false: 0}[pageNo%4 == 0])
-		if pageNo%3 == 1 {
+		if pageNo%5 == 1 {
 			c16GC(false)
 		}
 		checkAll(fmt.Sprintf("while the page is held (after reading page %d and churn)", pageNo))
@@ -1941,14 +1943,18 @@ func c16ExecBuf(cs *c16BufCase) (o *c16Outcome) {
 		}
 		if rng.Intn(2) == 0 {
 			c16Churn(cs.ChurnSeed+int64(bi)*13, cs.Workers)
-			c16GC(false)
+			if rng.Intn(2) == 0 {
+				c16GC(false)
+			}
 			checkHeld("after churn and GC")
 		}
 	}
 	step = len(cs.Batches)
 	buf.Reset()
 	c16Churn(cs.ChurnSeed+77, cs.Workers)
-	c16GC(false)
+	if cs.ChurnSeed%2 == 0 {
+		c16GC(false)
+	}
 	checkHeld("after the final Reset, churn and GC")
 	return o
 }
@@ -2176,7 +2182,9 @@ func c16ExecCaller(cs *c16CallerCase) (o *c16Outcome) {
 	}
 	churn := func() error {
 		c16Churn(cs.ChurnSeed, cs.Workers)
-		c16GC(false)
+		if cs.ChurnSeed%3 == 0 {
+			c16GC(false)
+		}
 		return nil
 	}
 	switch cs.API {
@@ -2350,6 +2358,7 @@ func runC16(c *core.Ctx) {
 		defer pprof.StopCPUProfile()
 	}
 	parquet.VerifSetPoison(true)
+	debug.SetGCPercent(1000) // the live heap is a few MB: without this the collector runs thousands of times
 	if runtime.GOMAXPROCS(0) > 4 {
 		runtime.GOMAXPROCS(4) // explicit GCs on many Ps spend their time contending in the sweeper
 	}
@@ -2366,7 +2375,9 @@ func runC16(c *core.Ctx) {
 	rng := c.Rng
 	t0 := time.Now()
 	lap := func(what string) {
-		c.Note("time %s: %.1fs", what, time.Since(t0).Seconds())
+		var ms runtime.MemStats
+		runtime.ReadMemStats(&ms)
+		c.Note("time %s: %.1fs (heap in use %d MB, sys %d MB, objects %d, GCs %d)", what, time.Since(t0).Seconds(), ms.HeapInuse>>20, ms.Sys>>20, ms.HeapObjects, ms.NumGC)
 		t0 = time.Now()
 	}
 
